@@ -35,6 +35,10 @@ SIG_F7 = "C09:F7 Learner2D unusable on numpy>=2.x/scipy>=1.15 (choose_point_in_t
 SIG_F16 = "C09:F16 BalancingLearner over IntegratorLearner cannot ask (IntegratorLearner.tell_pending() takes no point)"
 SIG_F18 = ("C09:F18 BalancingLearner.ask(tell_pending=False) rebuilds Learner1D-type children through tell_many "
            "(restore via __setstate__): x-scale, bounding box and interval bookkeeping differ afterwards")
+SIG_F19 = ("C09:F19 AverageLearner1D.ask takes next(iter(_undersampled_points)): the answer depends on the iteration order of a "
+           "set, which a snapshot/restore of the learner does not preserve")
+SIG_F2 = ("C09:F2 BalancingLearner.tell_pending leaves _pending_loss stale (C15:F2): loss(real=False) after a committing ask "
+          "differs from ask(tell_pending=False) followed by tell_pending of each point")
 SIG_F17 = ("C09:F17 BalancingLearner.ask(tell_pending=False) resets AverageLearner1D children to default parameters "
            "(restore via __setstate__ re-runs __init__ without delta/alpha/min_samples/...)")
 
@@ -110,6 +114,7 @@ def pre_state(ad, l):
         st["child_fp"] = [G.fp_attrs(c) for c in l.learners]
         if ad.child.spec["kind"] == "Avg1D":
             st["params"] = [avg1d_params(c) for c in l.learners]
+    st["under_order"] = [list(b._undersampled_points) for a, b in leaves(ad, l) if a.spec["kind"] == "Avg1D"]
     for a, b in leaves(ad, l):
         if a.spec["kind"] == "Int":
             stack = set(b._stack)
@@ -277,6 +282,10 @@ def probe_state(ad, H, n, seed):
         if ok and not msg2:
             return [(SIG_F3B, f"{name} after {len(H)} ops: {generic[0][1]} (vanishes when _ask_cache/_loss/_pending_loss/_cycle "
                               f"are put back by hand)")], True
+        now_order = [list(b._undersampled_points) for a, b in leaves(ad, A) if a.spec["kind"] == "Avg1D"]
+        if any(x != y and sorted(x) == sorted(y) for x, y in zip(pre["under_order"], now_order)):
+            return [(SIG_F19, f"{name} after {len(H)} ops: {generic[0][1]}; the children's _undersampled_points hold the same "
+                              f"abscissae in a different iteration order after the restore")], True
         if chg:
             attrs = sorted({a for v in chg.values() for a in v})
             return [(f"C09:{G.spec_name(_sig_spec(ad.spec))}:children-not-restored",
@@ -305,6 +314,9 @@ def probe_state(ad, H, n, seed):
         if bad is not None:
             fails.append((f"C09:{G.spec_name(_sig_spec(ad.spec))}:commit-state",
                           f"{name} after {len(H)} ops: tell_pending of a point returned by ask({n}, False) raised {G.short(bad)}"))
+        elif d and is_bal and set(d) <= {"loss_exp", "loss_real"} and _equal_without_loss_caches(ad, C, D):
+            return [(SIG_F2, f"{name} after {len(H)} ops: after ask({n}, True) loss(real=False) = {G.short(sc['loss_exp'])} but after "
+                             f"ask({n}, False) + tell_pending(each) {G.short(sd['loss_exp'])} (equal once _loss/_pending_loss are dropped)")], True
         elif d:
             fails.append((f"C09:{G.spec_name(_sig_spec(ad.spec))}:commit-state",
                           f"{name} after {len(H)} ops: after ask({n}, True) {d[0]} = {G.short(sc[d[0]])} but after ask({n}, False) + "
@@ -317,6 +329,12 @@ def probe_state(ad, H, n, seed):
             fails.append((f"C09:{G.spec_name(_sig_spec(ad.spec))}:commit-state",
                           f"{name} after {len(H)} ops: points {G.short(missing)} returned by ask({n}, True) are not pending"))
     return fails, False
+
+
+def _equal_without_loss_caches(ad, C, D):
+    for l in (C, D):
+        l._loss, l._pending_loss = {}, {}
+    return not G.diff_snap(G.snapshot(ad, C), G.snapshot(ad, D))
 
 
 def _sig_spec(spec):
